@@ -5,6 +5,7 @@ COMMON_ASSUMPTIONS = [
     "seeded sampling, not enumeration: a clean batch is evidence, not proof",
     "baton scheduling serialises operations; instruction-level interleavings are only explored in the thorough tier under Miri",
     "Miri runs with -Zmiri-disable-stacked-borrows (the unchanged tree violates the aliasing models at every type erasure)",
+    "under Miri some steps of a plan are no-ops and still count as part of an explored plan: consuming calls and clones of objects, the foreign-module caller and plugin of the waker engine, entries returning Self, allocation tracking; the native runs of the same plans execute them",
 ]
 
 
